@@ -71,8 +71,21 @@ BigV(a) ==
               <<"REJECT", (IF ~T.outs[i].ok THEN "acceptance-differs-between-containers" ELSE "graphs-differ-between-containers") \o " @ " \o T.outs[i].c>>
          ELSE Acc
 
-A == CASE T.kind = "stream" -> StrA [] T.kind = "bigstream" -> BigA [] OTHER -> DmpA
-V == CASE T.kind = "stream" -> StrV(ra) [] T.kind = "bigstream" -> BigV(ra) [] OTHER -> DmpV(ra)
+(* ---------------- kind = "filehist" ---------------- *)
+\* A history of dumps and loads on two paths (generated by MC_File): every load returns the graphs of the last dump to its path.
+\* T: hist: [{op, path, texts}], steps: [{ok, exc, graphs}] (one per event)
+LastDump(k) == LET S == {j \in 1..(k - 1) : T.hist[j].op = "dump" /\ T.hist[j].path = T.hist[k].path} IN
+               IF S = {} THEN 0 ELSE CHOOSE j \in S : \A i \in S : i <= j
+HistA == [k \in DOMAIN T.hist |-> IF T.hist[k].op = "load" /\ LastDump(k) # 0 THEN ConcatGraphs(T.hist[LastDump(k)].texts, 1) ELSE [ok |-> TRUE, gs |-> <<>>]]
+HistV(a) ==
+    LET bad == {k \in DOMAIN T.hist : \/ ~T.steps[k].ok
+                                       \/ (T.hist[k].op = "load" /\ a[k].ok /\ ~SameSeq(a[k].gs, T.steps[k].graphs))} IN
+    IF bad # {} THEN LET k == CHOOSE x \in bad : \A y \in bad : x <= y IN
+         <<"REJECT", (IF ~T.steps[k].ok THEN T.hist[k].op \o "-failed " \o T.steps[k].exc ELSE "load-does-not-return-the-last-dump") \o " @ " \o T.how>>
+    ELSE Acc
+
+A == CASE T.kind = "stream" -> StrA [] T.kind = "filehist" -> HistA [] T.kind = "bigstream" -> BigA [] OTHER -> DmpA
+V == CASE T.kind = "stream" -> StrV(ra) [] T.kind = "filehist" -> HistV(ra) [] T.kind = "bigstream" -> BigV(ra) [] OTHER -> DmpV(ra)
 Init == tid \in 1..Len(Traces) /\ step = 0 /\ ra = 0 /\ verdict = <<"pending", "">>
 Compute1 == step = 0 /\ step' = 1 /\ ra' = A /\ UNCHANGED <<tid, verdict>>
 Judge == step = 1 /\ step' = 2 /\ verdict' = V /\ UNCHANGED <<tid, ra>>
